@@ -30,6 +30,16 @@ RULE = ("cases: TruncatedLevyMeasure.integrate(a,b) with [a,b] inside / outside 
         "INVERSION, CTMCGrid) on random dyadic axes (1..4 states per side, optionally refined), dyadic parameters: every entry of create_q_vector and "
         "intensity_of_jumps against the R model (generated create_q_vector / compute_intensity_of_jumps_1d over R, hem_integrate, truncated_interval) by one "
         "interval-arithmetic lemma each, |model - float| <= 1e-12.  "
+        "Wave 7 (audit 4): in the 2-d/3-d table groups the per-state literal is no longer a harness recomputation: cell (a, b), value and probability are "
+        "those of the sampler's OWN model.mass call inside probability_to_jump_to_state (wrapper around chain.model.mass); Coq compares every rate with "
+        "the code-clamp model (Model/ChainNdClamp.v), the per-axis cell bounds with cell_lo / cell_hi_c, the probability with fl(rate/intensity) (2^-52). "
+        "Table chains keep their support INSIDE the grid (truncation inactive: the table's integral is then the chain's mass); truncation ACTIVE is the new "
+        "exact stream chain2d_trunc / chain3d_trunc: the library's DependentComponentsCopula / IndependentComponentsCopula on dyadic step margins whose "
+        "support exceeds / equals / lies inside the grid, through the real MarkovChainLevyCopula, against chain_mass2/3 = generated mass_2d/mass_3d on the "
+        "margins clipped to the axes (Proofs/C01_CopulaTrunc.v), oracle = independent Fraction formulas for both readings (copula of truncated margins; "
+        "nu(cell)): a difference from nu(cell) is finding F-C01-1.  Stream chain3d_uneq: the public CTMCGrid with axes of UNEQUAL lengths "
+        "((5,7,5), (7,5,5), random): rates, IndexErrors and (sum of rates == intensity) as observed against the code-clamp model (behaviour pinned; "
+        "outside C01's quantifier: no constructor builds such grids).  "
         "non-trivial = distinct chain with >= 2 states on a side")
 MODELLED = ["numpy arrays as lists of Q, np.zeros/enumerate loop of create_q_vector, itertools.product of the 3 intervals per dimension "
             "(dimension 1, 2, 3: intensity1 / intensity2 / intensity3, the 3^d-1 boxes in itertools.product order)",
@@ -39,8 +49,23 @@ MODELLED = ["numpy arrays as lists of Q, np.zeros/enumerate loop of create_q_vec
             "copula chains: LevyCopulaModel.mass as an abstract box mass `mass2` / `mass3` additive per coordinate and non-negative on "
             "boxes avoiding the origin (Sections Measure2d / Measure3d); discharged (all boxes) for the harness's density tables "
             "(C01_table_mass3_is_a_measure, C01_table_chain_3d); for Clayton / real margins: oracle with tolerance only",
-            "n-d right_point: the implementation clamps every axis with len(axes[0]) (spatial.py FIXME), the model with the axis' own "
-            "length; equal for axes of equal length, the only ones the library's constructors build and the correspondence drives",
+            "n-d right_point (wave 7, audit 4 X-d/D3): the implementation clamps EVERY axis with len(axes[0]) (spatial.py:93 FIXME).  Modelled AS THE CODE "
+            "DOES in Model/ChainNdClamp.v (right_point_c / cell_hi_c / q_matrix2_c / q_tensor3_c; None = IndexError); the 2-d/3-d theorems are stated about "
+            "these and carry the hypothesis `length ys = length xs` (`length zs = length xs`), under which the clamp is the axis' own (C01_code_clamp). "
+            "Behaviour of the code on UNEQUAL lengths (public CTMCGrid(h, origin, axes) accepts them; no library constructor builds them; outside C01's "
+            "quantifier, so recorded here and not as a violation): an axis LONGER than axes[0] has the cells of its indices >= len(axes[0]) - 1 collapsed "
+            "onto xs[len(axes[0]) - 1], some of them REVERSED intervals for which LevyCopulaModel.mass returns a NEGATIVE value (signed table integral "
+            "step_mass3s; the sampler's max(state_mass, 0) makes the probability 0) (mass lost: C01_unequal_lengths_refuted, lengths (5,7,5): /repo reports intensity 2.0, its sampler's rates sum to "
+            "1.5); an axis SHORTER than axes[0] raises IndexError at its last index (lengths (7,5,5): 63 of 174 states).  compute_intensity_of_jumps only "
+            "asks for the right neighbour of the origin and is unaffected.  Pinned on /repo by the exact group chain3d_uneq",
+            "WHICH MEASURE a copula chain integrates (wave 7, audit 4 A4/D5): MarkovChainLevyCopula deep-copies the model and truncates every MARGIN to "
+            "(axes[k][0], axes[k][-1]) keeping the copula: its rates are masses under nu~ = (copula, truncated margins), modelled by chain_mass2 / chain_mass3 "
+            "(Proofs/C01_CopulaTrunc.v: C12's generated mass_2d / mass_3d on step margins clipped to the axes, library copulas Indep / Dep).  nu~ is NOT the "
+            "restriction of the model's Levy measure nu to the grid box (tail integrals shifted by the truncated tail): DECISION -- C01's '(truncated) "
+            "Levy-measure mass of the cell' means nu(cell) for a cell inside the box (the property's anchors: 'support the measure is restricted to'); the "
+            "code violates that when a margin has mass outside its axis: finding F-C01-1 (KNOWN), C01_copula_rate_is_restricted_nu_refuted.  The density-table "
+            "chains (step_mass2 / step_mass3 = the harness table's own integral) are driven with support inside the grid only, where both readings coincide",
+            "n-d origin entry of the rate matrix: 0 by convention (the n-d code has no rate array and the sampler's state manager never proposes the origin)",
             "samplers other than INVERSION: only the rates they are built from (create_q_vector on the grid object) and, for Huffman, "
             "the leaf probabilities are observed here; their sampling law is C02's business",
             "wave 6 -- loops REGENERATED FROM THE SOURCE and linked by theorem: create_q_vector (np.zeros + enumerate loop + conditional store), "
@@ -60,9 +85,14 @@ ASSUMPTIONS = ["mass a b = nu([a,b]) is additive and non-negative ON INTERVALS N
                "(C01_hem_chain_rates, C01_merton_chain_rates, C01_vg_chain_rates: no hypothesis on the mass left; parameters in their natural "
                "ranges, erf / exp1 as in Base/RSpecial.v, VG: the float-infinity sentinel INF beyond the truncation range); CGMY: not composed "
                "(C09's CGMY theorems are relative to an abstract incomplete-gamma function)",
-               "mass2 / mass3 (LevyCopulaModel.mass) additive under a split of one coordinate interval, non-negative and ==-respecting "
-               "on boxes avoiding the origin: hypotheses of Sections Measure2d / Measure3d; discharged for 3-d density tables by "
-               "C01_table_mass3_is_a_measure (C12 is about the real copulas; not formally composed)",
+               "mass2 / mass3 (LevyCopulaModel.mass of the chain's model_tilde) additive under a split of one coordinate interval, non-negative and "
+               "==-respecting on boxes avoiding the origin: hypotheses of Sections Measure2d / Measure3d.  Additivity and == : DISCHARGED (wave 7) for the "
+               "code's own mass -- the generated mass_2d / mass_3d on ANY tail integrals that are functions of the number (C01_copula_chain_sum_2d/_3d, "
+               "composition with C19's box_mass lemmas), in particular for step margins with the library's Indep / Dep copula, truncation active or not "
+               "(C01_step_copula_chain_sum_2d/_3d).  Non-negativity (2-increasing copula) stays a hypothesis (C12's business), checked per state by the "
+               "oracle.  For 3-d density tables all three are discharged by C01_table_mass3_is_a_measure -- about the HARNESS's table integral, tied to "
+               "LevyCopulaModel.mass per state by the exact groups with truncation inactive",
+               "axes of a copula grid have EQUAL LENGTHS (every constructor; hypothesis of all 2-d/3-d theorems; needed: C01_unequal_lengths_refuted)",
                "grid.middle lies strictly inside a gap, middle(x,x)=x at the two (non-zero) end points and respects == (proved only for "
                "the arithmetic mean; for the probability-step grid checked by the oracle per state)"]
 THEOREM_NOTES = {
@@ -79,25 +109,44 @@ THEOREM_NOTES = {
                                  "table_mass of C02_table_law (slot byte and alias uniform independent), not the exact 32-bit word count; over Q",
     "C01_gen_sum_rates_is_intensity_2d": "2-d: only the intensity is regenerated from the source (GenTieChain2d); the per-cell rates of a copula chain are "
                                          "not computed by a loop in samplingfactory.py (the samplers call model.mass per cell) and stay the hand model q_matrix2",
-    "C01_sum_rates_is_intensity_2d": "proved for dimension 2 (any two admissible axes sharing the origin index; rectangle mass additive per "
+    "C01_copula_rate_is_restricted_nu_refuted": "audit 4 A4/D5 decided: for copula chains the code's rate of a cell is the mass under the copula applied "
+                                                "to the margins truncated to the axes (chain_mass2), which differs from the model's Levy-measure mass of the "
+                                                "cell (nu_mass2) for cells INSIDE the grid box as soon as a margin has mass outside its axis; witness run on "
+                                                "/repo (rate 0.5 vs 0, intensity 3 vs 1); recorded as F-C01-1 (status known).  What still holds for the code's "
+                                                "measure is C01_copula_chain_sum_2d/_3d (rates exist and sum to the reported intensity, no additivity "
+                                                "hypothesis); rates >= 0 needs the copula to be 2-increasing (hypothesis mass2_pos / mass3_pos)",
+    "C01_unequal_lengths_refuted": "audit 4 X-d: the 2-d/3-d theorems are about the code's clamp (len(axes[0]) on every axis) and need equal lengths; the "
+                                   "witnesses (sum of rates 3/2 < intensity 2 on (5,7,5); None = IndexError on (7,5,5)) are replayed on /repo by group "
+                                   "chain3d_uneq.  Not a violation of C01 (no constructor builds such grids): recorded in MODELLED",
+    "C01_table_mass3_is_a_measure": "about harness/c01_table3.TableN's integral step_mass3, not about LevyCopulaModel._mass_3d; the link is the per-state exact "
+                                    "comparison of group chain3d (value returned by the library's mass to the sampler == step_mass3 of the code's cell), with "
+                                    "truncation inactive.  C01_rates_nonneg_3d is conditional on mass3_pos, discharged for these tables only",
+    "C01_sum_rates_is_intensity_2d": "proved for dimension 2 (any two admissible axes OF EQUAL LENGTHS sharing the origin index, rates = the code-clamp q_matrix2_c; rectangle mass additive per "
                                      "coordinate and non-negative on boxes avoiding the origin), with C01_cells_tile_2d and C01_rates_nonneg_2d; "
                                      "tied by the exact groups chain2d (equal axes) and chain2d_axes (different axes, CTMCCredit with different "
                                      "thresholds, grid objects refined in place) on density-table copulas",
-    "C01_sum_rates_is_intensity_3d": "proved for dimension 3 (any three admissible axes of any lengths sharing the origin index; box mass "
+    "C01_sum_rates_is_intensity_3d": "proved for dimension 3 (any three admissible axes OF EQUAL LENGTHS sharing the origin index, rates = the code-clamp q_tensor3_c; box mass "
                                      "additive per coordinate on boxes avoiding the origin), with C01_cells_tile_3d and C01_rates_nonneg_3d; "
                                      "C01_table_chain_3d is the instance with NO mass hypothesis left (3-d density tables, arithmetic-mean "
-                                     "middle); tied by the exact group chain3d through the real MarkovChainLevyCopula / _mass_3d. Dimension "
-                                     "> 3 (_mass_nd) is not modelled",
+                                     "middle); tied by the exact group chain3d through the real MarkovChainLevyCopula / _mass_3d: since wave 7 the literal holds the "
+                                     "sampler's own model.mass call (cell, value) and probability per state, not a harness recomputation; only the INVERSION sampler "
+                                     "is driven in n-d (BINARYSEARCHTREEADAPTED's n-d rates are not observed here). Dimension > 3 (_mass_nd) is not modelled",
 }
-LEVEL_TEXT = ("Proof: 39 Coq theorems/examples (Q part closed under the global context; R part: the standard axioms of the Coq reals, classical "
+LEVEL_TEXT = ("Proof: 47 Coq theorems/examples (Q part closed under the global context; R part: the standard axioms of the Coq reals, classical "
               "logic, functional extensionality): for every admissible axis of any length, any middle function "
               "with the stated properties and any interval mass that is additive and non-negative away from the origin, the cells of the non-origin states tile "
               "[x_0,x_n] minus the central cell with shared end points and no overlap, every state lies in its cell, every rate is "
               ">= 0, and the sum of create_q_vector equals compute_intensity_of_jumps (telescoping); the truncated measure is the mass "
               "of the intersection and is again additive/non-negative, so the same holds for what MarkovChainProcess builds; the same "
               "three statements (tiling, non-negativity, sum of all rates = the 3^d-1 boxes) for the product grids of copula chains in "
-              "dimension 2 and 3 on any admissible axes sharing the origin index, for any box mass additive per coordinate away from the "
-              "origin, and with no mass hypothesis at all for 3-d density tables.  Wave 6: (a) create_q_vector, compute_intensity_of_jumps (1-d, 2-d), "
+              "dimension 2 and 3 on any admissible axes OF EQUAL LENGTHS sharing the origin index (the rates are modelled with the code's clamp "
+              "len(axes[0]); on unequal lengths -- which no constructor builds -- the statement is REFUTED: C01_unequal_lengths_refuted), for any box mass "
+              "additive per coordinate away from the origin, and with no mass hypothesis at all for 3-d density tables (the harness's table integral).  "
+              "Wave 7: for copula chains the box mass is the chain's own (copula applied to the margins truncated to the axes); for it additivity is a "
+              "theorem (composition with C12/C19: generated mass_2d / mass_3d on any tail integrals), so 'rates exist and sum to the reported intensity' "
+              "holds with truncation active; but 'rate = Levy-measure mass nu(cell) of the model' is REFUTED when a margin has mass outside its axis "
+              "(C01_copula_rate_is_restricted_nu_refuted, finding F-C01-1, known): the code integrates the copula of the truncated margins, not the "
+              "restriction of nu.  Wave 6: (a) create_q_vector, compute_intensity_of_jumps (1-d, 2-d), "
               "left_point / right_point / middle are regenerated from the source on every run (loop plug-in) and proved equal to the hand models; the "
               "chain theorems are restated about the generated definitions; (b) the 1-d theorems are replayed over R and COMPOSED with C09: for "
               "HEM, Merton and VG (generated densities and closed forms) every rate of the generated rate vector IS the integral of the density "
@@ -105,8 +154,10 @@ LEVEL_TEXT = ("Proof: 39 Coq theorems/examples (Q part closed under the global c
               "with C02: the vector create_vec_jump_matrix hands to ALIAS / TABLE is a probability vector and both samplers give state k the "
               "probability mass(cell k)/intensity.  _truncated_interval is re-translated from the source on every run (Q and R).  Tied to /repo by "
               "exact vm_compute correspondence on dyadic step-measure chains (incl. grid objects refined in place, CouplingMarkovChain.next_level, "
-              "non-INVERSION sampler paths, ALIAS / TABLE vectors and tables with tolerance 2^-40) and on 2-d/3-d density-table copula chains with "
-              "unequal axes. Partial: CGMY and the real copulas (Clayton) are covered by the oracle with tolerance, not by theorems; the R model of "
+              "non-INVERSION sampler paths, ALIAS / TABLE vectors and tables with tolerance 2^-40), on 2-d/3-d density-table copula chains with "
+              "different axes of equal lengths (per state: the sampler's own model.mass call and probability; truncation inactive), on library-copula "
+              "(Indep / Dep) step-margin chains with truncation ACTIVE, and on 3-d chains with axes of unequal lengths (code's clamp). Partial: rates >= 0 "
+              "of copula chains is conditional on the non-negativity of the box mass (discharged for density tables only); CGMY and the real copulas (Clayton) are covered by the oracle with tolerance, not by theorems; the R model of "
               "the HEM chain is tied to /repo through the generated definitions AND by interval lemmas on the real MarkovChainProcess (every rate and the "
               "intensity within 1e-12); the Merton / VG R chains only through the generated definitions and C09's correspondence of the closed forms "
               "(their implementation rates are compared with an independent quadrature, tolerance); "
@@ -312,16 +363,24 @@ def correspond(res):
     groups.append(_table_chain_nd_group(res, rng, viol, 3, 4 if not thorough else 20))
     groups.append(_table_chain_nd_group(res, rng, viol, 2, 6 if not thorough else 40))
     groups.append(_alias_table_stream(res, rng, viol, 40 if not thorough else 400))
+    # wave 7 (audit 4): axes of unequal lengths (the code's clamp len(axes[0]) pinned), truncation ACTIVE on copula chains (library copulas)
+    import c01_w7
+    rng7 = random.Random(res.seed + 77)
+    groups.append(c01_w7.uneq_group(res, rng7, viol, 2 if not thorough else 10))
+    groups.append(c01_w7.trunc_group(res, rng7, viol, 2, 7 if not thorough else 40))
+    groups.append(c01_w7.trunc_group(res, rng7, viol, 3, 3 if not thorough else 12))
     _hem_R_stream(res, rng, viol, 4 if not thorough else 30)
 
-    header = ("From Coq Require Import ZArith QArith Qabs List Bool.\nFrom RV Require Import Base.QB Model.Grid Gen.GenC01Trunc Model.Chain "
-              "Model.Chain3d Model.Bst Model.Factory.\nOpen Scope Q_scope.")
+    header = ("From Coq Require Import ZArith QArith Qabs List Bool.\nFrom RV Require Import Base.QB Base.ExtNum Model.Grid Gen.GenC01Trunc Model.Chain "
+              "Model.Chain3d Model.ChainNdClamp Model.Bst Model.Factory Model.Copula Model.MassNd Proofs.C01_CopulaTrunc.\nOpen Scope Q_scope.\n" + c01_w7.COQ_DEFS)
     res.case_lemmas += len(groups)
-    for gname, ty, chk, cases in groups:
+    for grp in groups:
+        gname, ty, chk, cases = grp[:4]
+        shard = grp[4] if len(grp) > 4 else 60
         if not cases:
             res.broke(f"correspondence {gname}", "the generator produced no case for this group")
             continue
-        bad, nshards = parallel_coq_bad(PROP, f"cases_{gname}", header, ty, chk, cases, shard=60)
+        bad, nshards = parallel_coq_bad(PROP, f"cases_{gname}", header, ty, chk, cases, shard=shard)
         if bad:
             res.broke(f"correspondence {gname}", f"model and implementation differ on {len(bad)} case(s), first: {cases[bad[0]][:1500]}")
         else:
@@ -953,13 +1012,14 @@ def _table_chain_group(res, rng, viol, n_tables):
 
 def _table_chain_nd_group(res, rng, viol, dim, n_tables):
     """dimension 2 and 3, exact: copula chains on d-dimensional density-table Levy copulas (harness/c01_table3.py) built through the
-    real MarkovChainLevyCopula on grids whose axes DIFFER (lengths equal, as the library's right_point needs): (i) CTMCGrid on
+    real MarkovChainLevyCopula on grids whose axes DIFFER (lengths equal, as the library's right_point needs; tables supported inside the grid, i.e.
+    truncation INACTIVE -- truncation active and unequal lengths are the streams of harness/c01_w7.py): (i) CTMCGrid on
     axes drawn independently from a pool of admissible axes, (ii) the real CTMCCredit constructor with a DIFFERENT level_a per name
     (symmetric or not).  Each grid object is either refined before its first use, or USED, REFINED IN PLACE and USED AGAIN (the
     CouplingMarkovChain.next_level pattern) -- every use is a case.  Observed: intensity_of_jumps, compute_intensity_of_jumps (the
-    3^d-1 boxes) and LevyCopulaModel.mass (_mass_2d / _mass_3d with all axis-straddling corrections) of EVERY non-origin cell, the
-    cell computed by the grid's own left_point / right_point / middle on CoordinateND (what probability_to_jump_to_state does), and the
-    inversion sampler's probability of every state.  Coq side: Model/Chain.v intensity2 / q_matrix2 resp. Model/Chain3d.v intensity3 /
+    3^d-1 boxes) and, for EVERY non-origin state, the sampler's own call LevyCopulaModel.mass(a, b) (_mass_2d / _mass_3d with all
+    axis-straddling corrections) inside probability_to_jump_to_state -- (a, b) and the returned value recorded by a wrapper -- and the
+    probability the closure returns.  Coq side: Model/Chain.v intensity2 / q_matrix2 resp. Model/Chain3d.v intensity3 /
     q_tensor3 on the (different) axes, and the admissibility of every axis (hypotheses of C01_sum_rates_is_intensity_2d/_3d)."""
     from rpylib.process.markovchain.markovchainlevycopula import MarkovChainLevyCopula
     from rpylib.distribution.sampling import SamplingMethod
@@ -967,6 +1027,7 @@ def _table_chain_nd_group(res, rng, viol, dim, n_tables):
     from rpylib.grid.spatial import CTMCGrid
     from rpylib.grid.grid import Coordinates
     from c01_table3 import TableN, WITNESS_TABLE3, random_table3, table_copula_model_nd, AXES5, AXES7
+    from c01_w7 import spy_rates, nd_case, TY2, TY3
     from props.C13 import build_credit
     from props.C03 import WITNESS_TABLE
     import itertools, warnings
@@ -986,20 +1047,22 @@ def _table_chain_nd_group(res, rng, viol, dim, n_tables):
                 chain = MarkovChainLevyCopula(levy_copula_model=model, grid=grid, method=SamplingMethod.INVERSION)
                 lam = float(chain.intensity_of_jumps)
                 lam2 = float(compute_intensity_of_jumps(model=chain.model, grid=grid))
-                prob = chain.sampling.probability_to_jump_to_state
+                # wave 7 (audit 4, A4): NOT a harness recomputation any more -- the cell (a, b) and the value are those of the sampler's OWN
+                # model.mass call inside probability_to_jump_to_state (recorded by a wrapper around chain.model.mass), the probability is
+                # what the closure returned; all of them go into the Coq literal
+                spied = spy_rates(chain, grid, dim)
                 cells, rate = {}, {}
-                for idx in itertools.product(*[range(len(a)) for a in axs]):
-                    if idx == (o2,) * dim:
-                        continue
-                    st = Coordinates(list(idx))
-                    val = grid[st]
-                    lo, hi = grid.middle(grid.left_point(st), val), grid.middle(val, grid.right_point(st))
-                    cells[idx] = (lo, hi, val)
-                    rate[idx] = float(chain.model.mass(lo, hi))
-                    pk = float(prob(tuple(i - o2 for i in idx)))
-                    if abs(pk * lam - max(rate[idx], 0.0)) > 1e-12 * lam:
+                for idx, e in spied.items():
+                    if not (isinstance(e, tuple) and len(e) == 4):
+                        viol(f"copula chain (d={dim}): the inversion sampler's probability_to_jump_to_state raises / calls model.mass more than once",
+                             state=list(idx), got=str(e), **ctx)
+                        return
+                    a_s, b_s, v_s, pk = e
+                    cells[idx] = (a_s, b_s, grid[Coordinates(list(idx))])
+                    rate[idx] = v_s
+                    if abs(pk * lam - max(v_s, 0.0)) > 1e-12 * lam:
                         viol(f"copula chain (d={dim}): inversion sampler's probability of a state is not (mass of the state's cell)/intensity",
-                             state=list(idx), got=pk * lam, want=rate[idx], **ctx)
+                             state=list(idx), got=pk * lam, want=v_s, **ctx)
                         break
         except Exception as e:  # noqa
             viol(f"building the {dim}-d table-copula chain raises {type(e).__name__}", reason=str(e)[:200], **ctx)
@@ -1031,11 +1094,9 @@ def _table_chain_nd_group(res, rng, viol, dim, n_tables):
         if lam != lam2 or Fr(lam) != tot:
             viol(f"copula chain (d={dim}): reported intensity differs from the sum of the rates", got=lam, want=float(tot), **ctx)
 
-        def nest(prefix, d):
-            if d == dim:
-                return qlit(rate.get(prefix, 0.0))
-            return lst([nest(prefix + (k,), d + 1) for k in range(len(axs[d]))])
-        cases.append(f"({table.coq()}, " + ", ".join(lst([qlit(x) for x in a]) for a in axs) + f", {natlit(o2)}, {qlit(lam)}, {nest((), 0)})")
+        got = nd_case(spied, axs, o2, lam, viol, ctx)
+        if got is not None:
+            cases.append(f"({table.coq()}, {got[0]})")
 
     for t_i, table in enumerate(tables):
         src = "credit" if t_i % 3 == 1 else "pool"
@@ -1065,19 +1126,15 @@ def _table_chain_nd_group(res, rng, viol, dim, n_tables):
             if mode == "use-refine-use":
                 grid.refine()      # in place, after the grid object has served a chain (q cells / sampler probabilities computed)
                 use(grid, table, table_copula_model_nd(table), ctx, "same grid object refined in place after use")
+    # Coq side (harness/c01_w7.py COQ_DEFS chain2_chk / chain3_chk): admissibility of every axis, intensity, EVERY entry of the code-clamp
+    # rate tensor (Model/ChainNdClamp.v) = the value model.mass returned to the sampler, the sampler's probability = fl(rate/intensity)
+    # (2^-52 relative), the sampler's per-axis cell bounds = cell_lo / cell_hi_c, sum of the rates = intensity, no state raises
     if dim == 3:
-        return (gname, "list (Q * Q * Q * Q * Q * Q * Q) * list Q * list Q * list Q * nat * Q * list (list (list Q))",
-                "fun c => match c with (ps, xs, ys, zs, o, lam, t) => "
-                "admissibleb xs o (nthq xs (o + 1)) && admissibleb ys o (nthq ys (o + 1)) && admissibleb zs o (nthq zs (o + 1)) && "
-                "forallb (fun p => Qle_bool 0 (dens3 p)) ps && "
-                "Qeq_bool (intensity3 amid (step_mass3 ps) xs ys zs o) lam && "
-                "qlll_eqb (q_tensor3 amid (step_mass3 ps) xs ys zs o) t && "
-                "Qeq_bool (qsum3 (q_tensor3 amid (step_mass3 ps) xs ys zs o)) lam end", cases)
-    return (gname, "list (Q * Q * Q * Q * Q) * list Q * list Q * nat * Q * list (list Q)",
-            "fun c => match c with (ps, xs, ys, o, lam, m) => "
-            "admissibleb xs o (nthq xs (o + 1)) && admissibleb ys o (nthq ys (o + 1)) && "
-            "Qeq_bool (intensity2 amid (step_mass2 ps) xs ys o) lam && "
-            "qll_eqb (q_matrix2 amid (step_mass2 ps) xs ys o) m && Qeq_bool (qsum2 (q_matrix2 amid (step_mass2 ps) xs ys o)) lam end", cases)
+        return (gname, f"list (Q * Q * Q * Q * Q * Q * Q) * {TY3}",
+                "fun c => forallb (fun p => Qle_bool 0 (dens3 p)) (fst c) && chain3_chk (step_mass3 (fst c)) (snd c) && "
+                "match snd c with (_, _, _, (se, tot)) => se && tot end", cases, 2)
+    return (gname, f"list (Q * Q * Q * Q * Q) * {TY2}",
+            "fun c => chain2_chk (step_mass2 (fst c)) (snd c) && match snd c with (_, _, _, (se, tot)) => se && tot end", cases, 4)
 
 
 def clayton_F_nd(us, theta, eta):
@@ -1153,6 +1210,13 @@ def _copula_3d(res, rng, viol):
         viol(f"building the 3-d copula chain raises {type(e).__name__}", reason=str(e)[:200], **ctx)
 
 
+def matches_known(v, match):
+    """wave 7: the only recorded finding of C01 is F-C01-1 (copula chain with truncation active integrates the copula of the TRUNCATED margins);
+    the violation is accepted only after the real chain has been re-run from the replay (harness/c01_w7.py matches_known_trunc)"""
+    import c01_w7
+    return c01_w7.matches_known_trunc(v, match)
+
+
 def search(res):
     rng = random.Random(res.seed + 7)
 
@@ -1179,6 +1243,16 @@ def replay(path):
                        lambda what, **kw: out.append((what, kw.get("state"), kw.get("got"), kw.get("want"))), configs=data.get("configs"))
         print("still fails:" if out else "no failure on replay", out[:3])
         return 1 if out else 0
+    if str(data.get("kind", "")).startswith("copula-trunc"):
+        # wave 7: copula chain with truncation active (F-C01-1): re-run the real MarkovChainLevyCopula, both readings in Fractions
+        import c01_w7
+        ev = c01_w7.trunc_evaluate(data["margins"], data["cop"], data["axes"], data["refine"])
+        print("intensity", ev["lam"], "truncation active:", ev["active"], "sum of rates == intensity:", ev["sum_ok"])
+        print("rate != mass under copula(truncated margins):", ev["bad_T"][:3])
+        print("rate != nu(cell) [F-C01-1]:", len(ev["diff_R"]), "cells, first:", ev["diff_R"][:3])
+        bad = bool(ev["bad_T"] or ev["diff_R"] or not ev["sum_ok"] or ev["negative"] or ev["raised"])
+        print("still fails" if bad else "no failure on replay")
+        return 1 if bad else 0
     if data.get("kind") == "alias_table":
         # wave 6: the ALIAS / TABLE rate path on the recorded (already refined) axis
         from rpylib.distribution.samplingfactory import create_vec_jump_matrix
